@@ -49,5 +49,5 @@ REPLAY(c_agree) { return constant_t::bottom().is_bottom() && !constant_t::bottom
 REPLAY(c_bottom) { return K_(res(constant_t::bottom())) == CK_BOT; }
 REPLAY(c_top) { return K_(res(constant_t::top())) == CK_TOP; }
 REPLAY(c_zero) { constant_t r = res(constant_t::zero()); return K_(r) == CK_CST && V_(r) == 0; }
-REPLAY(c_ctor_z) { long long c = (long long)wit.u("c.f0.a[0].f0"); constant_t r = res(constant_t(z_number((int64_t)c))); return K_(r) == CK_CST && V_(r) == (i128)c; }
+REPLAY(c_ctor_z) { long long c = (long long)wit.u("c.f0.a.f0"); constant_t r = res(constant_t(z_number((int64_t)c))); return K_(r) == CK_CST && V_(r) == (i128)c; }
 int main(int argc, char **argv) { return replay_main(argc, argv); }
